@@ -61,6 +61,17 @@ def ruleOut : List Rule → Out
 def attached (c : Chain) : Bool := (preRun c.pre).1
 def outcome (c : Chain) : Out := if (preRun c.pre).2 then .panic else ruleOut c.rules
 
+/-- The built-in rule slots of the default chain, reduced to what the rules of a C01 case can make them do
+    (the decisions themselves are C04's / C05's subject): an isolation rule with threshold `T` blocks iff
+    `max(gauge, 0) + batch > T` (`isolation.checkPass` reads `CurrentConcurrency()` of the attached node);
+    otherwise a hotspot rule on argument 0 panics on an unhashable value (prefix `u:`). -/
+def defaultRule (iso : Option Nat) (hot : Bool) (conc : Int) (batch : Nat) (args : List String) : Rule :=
+  let blocked := match iso with
+    | some T => decide (conc.toNat + batch > T)
+    | none => false
+  let panics := hot && (match args.head? with | some a => a.startsWith "u:" | none => false)
+  if blocked then .block else if panics then .panic else .pass
+
 /-! ## ops -/
 
 structure EntryOp where
@@ -283,20 +294,21 @@ structure Info where
   done : Bool
 deriving DecidableEq, Repr
 
+/-- how one op addressed to an id changes that id's account -/
+def infoStep (x : TOp) (prev : Option Info) : Option Info :=
+  match x.2, prev with
+  | .entry e, none => some { e := e, t0 := x.1, err := if outcome e.chain = .panic then some "panic" else none,
+                              done := decide (outcome e.chain = .block) }
+  | .entry _, some i => some i
+  | .trace _ err, some i => if i.done then some i else some { i with err := orErr err i.err }
+  | .exit _ err, some i => if i.done then some i else some { i with err := orErr err i.err, done := true }
+  | _, none => none
+
 /-- what the ops **addressed to `id`** amount to: the entry op, its time, the error set so far (by the
     chain's recover, by `trace`, by the first `exit`), and whether it is finished (blocked, or exited) -/
 def info : List TOp → Nat → Option Info
   | [], _ => none
-  | x :: r, id =>
-    if x.2.addr = id then
-      match x.2, info r id with
-      | .entry e, none => some { e := e, t0 := x.1, err := if outcome e.chain = .panic then some "panic" else none,
-                                  done := decide (outcome e.chain = .block) }
-      | .entry _, some i => some i
-      | .trace _ err, some i => if i.done then some i else some { i with err := orErr err i.err }
-      | .exit _ err, some i => if i.done then some i else some { i with err := orErr err i.err, done := true }
-      | _, none => none
-    else info r id
+  | x :: r, id => if x.2.addr = id then infoStep x (info r id) else info r id
 
 /-- does entry `e` account on node `k`? (needs `stat.DefaultSlot` in its chain; on the resource when the
     node was attached, on the inbound total when the traffic is inbound) -/
@@ -311,29 +323,32 @@ def countsPass (fix : Bool) (c : Chain) : Bool :=
   | .block => false
   | .panic => fix
 
-/-- change of the number of live accounted entries of `k` caused by op `x` after history `r` -/
-def gaugeDelta (fix : Bool) (r : List TOp) (x : TOp) (k : Key) : Int :=
+/-- change of the number of live accounted entries of `k` caused by op `x`, given the account `i` of the id it addresses -/
+def gaugeDeltaI (fix : Bool) (i : Option Info) (x : TOp) (k : Key) : Int :=
   match x.2 with
-  | .entry e => if (info r e.id).isNone && touches e k && countsPass fix e.chain then 1 else 0
-  | .exit id _ => match info r id with
+  | .entry e => if i.isNone && touches e k && countsPass fix e.chain then 1 else 0
+  | .exit _ _ => match i with
       | some i => if !i.done && touches i.e k then -1 else 0
       | none => 0
   | .trace _ _ => 0
+
+def gaugeDelta (fix : Bool) (r : List TOp) (x : TOp) (k : Key) : Int := gaugeDeltaI fix (info r x.2.addr) x k
 
 def gauge (fix : Bool) : List TOp → Key → Int
   | [], _ => 0
   | x :: r, k => gauge fix r k + gaugeDelta fix r x k
 
-/-- the statistic events node `k` must see because of op `x` after history `r` -/
-def contrib (fix : Bool) (r : List TOp) (x : TOp) (k : Key) : List (Nat × Bucket) :=
+/-- the statistic events node `k` must see because of op `x`, given the account `i` of the id it addresses and
+    the number `g` of live accounted entries of `k` before it -/
+def contribI (fix : Bool) (i : Option Info) (g : Int) (x : TOp) (k : Key) : List (Nat × Bucket) :=
   match x.2 with
   | .entry e =>
-    if (info r e.id).isNone && touches e k then
+    if i.isNone && touches e k then
       match outcome e.chain with
       | .block => [(x.1, evBucket .block e.batch)]
-      | o => if o = .pass || fix then [(x.1, concBucket (gauge fix r k + 1)), (x.1, evBucket .pass e.batch)] else []
+      | o => if o = .pass || fix then [(x.1, concBucket (g + 1)), (x.1, evBucket .pass e.batch)] else []
     else []
-  | .exit id err => match info r id with
+  | .exit _ err => match i with
       | some i =>
         if !i.done && touches i.e k then
           (if (orErr err i.err).isSome then [(x.1, evBucket .error i.e.batch)] else [])
@@ -342,30 +357,38 @@ def contrib (fix : Bool) (r : List TOp) (x : TOp) (k : Key) : List (Nat × Bucke
       | none => []
   | .trace _ _ => []
 
+def contrib (fix : Bool) (r : List TOp) (x : TOp) (k : Key) : List (Nat × Bucket) :=
+  contribI fix (info r x.2.addr) (gauge fix r k) x k
+
 def evs (fix : Bool) : List TOp → Key → List (Nat × Bucket)
   | [], _ => []
   | x :: r, k => evs fix r k ++ contrib fix r x k
 
-/-- has a resource node for `res` been created? (first entry whose prepare phase reached the node slot) -/
+/-- the resource node created by op `x` (first entry whose prepare phase reaches the node slot), if any -/
+def nodeNewI (i : Option Info) (x : TOp) : Option String :=
+  match x.2 with
+  | .entry e => if i.isNone && attached e.chain then some e.res else none
+  | _ => none
+
+/-- has a resource node for `res` been created? -/
 def nodeExists : List TOp → String → Bool
   | [], _ => false
-  | x :: r, res => nodeExists r res ||
-      match x.2 with
-      | .entry e => (info r e.id).isNone && attached e.chain && decide (e.res = res)
-      | _ => false
+  | x :: r, res => nodeExists r res || decide (nodeNewI (info r x.2.addr) x = some res)
 
-def recContrib (fix : Bool) (r : List TOp) (x : TOp) : List RecEv :=
+def recContribI (fix : Bool) (i : Option Info) (x : TOp) : List RecEv :=
   match x.2 with
   | .entry e =>
-    if (info r e.id).isNone then
+    if i.isNone then
       match outcome e.chain with
       | .block => e.chain.recs.map fun k => RecEv.blocked k e.res e.batch
       | o => if o = .pass || fix then e.chain.recs.map fun k => RecEv.passed k e.res e.batch e.args else []
     else []
-  | .exit id err => match info r id with
+  | .exit _ err => match i with
       | some i => if !i.done then i.e.chain.recs.map fun k => RecEv.completed k i.e.res i.e.batch (orErr err i.err) (x.1 - i.t0) else []
       | none => []
   | .trace _ _ => []
+
+def recContrib (fix : Bool) (r : List TOp) (x : TOp) : List RecEv := recContribI fix (info r x.2.addr) x
 
 def recLog (fix : Bool) : List TOp → List RecEv
   | [] => []
